@@ -80,3 +80,17 @@ pub fn good_rec(d: &[u8], depth: usize) -> Option<usize> {
     }
     if d.is_empty() { Some(0) } else { good_rec(&d[1..], depth + 1).map(|x| x + 1) }
 }
+
+pub struct Ident {
+    pub id: u32,
+    pub creation: u32,
+}
+
+/// SELFCMP positive: the second comparison has the same operand on both sides.
+pub fn bad_selfcmp(a: &Ident, b: &Ident) -> std::cmp::Ordering {
+    a.id.cmp(&b.id).then_with(|| a.creation.cmp(&a.creation))
+}
+
+pub fn good_selfcmp(a: &Ident, b: &Ident) -> std::cmp::Ordering {
+    a.id.cmp(&b.id).then_with(|| a.creation.cmp(&b.creation))
+}
